@@ -252,7 +252,7 @@ Fixpoint queue_messages (fuel : nat) (l : loader) : loader :=
    are still appended by the C code but never looked at. *)
 Definition feed (l : loader) (chunk : bytes) (fds : N) : loader :=
   let l1 := mkLoader (l_buf l ++ chunk) (l_corrupted l) (l_reason l) (l_msgs l) (l_fds l + fds) (l_max l) in
-  queue_messages (S (length (l_buf l1) / 16)) l1.
+  queue_messages (S (length (l_buf l1))) l1.      (* every message consumes at least one byte: fuel suffices *)
 
 Definition feed_all (l : loader) (chunks : list bytes) : loader :=
   fold_left (fun l c => feed l c 0) chunks l.
